@@ -33,6 +33,7 @@ import warnings
 from . import core
 
 LEVEL = "model_checking"
+WORKERS = min(8, core.NCPU)      # TLC workers and python processes
 
 DROPPABLE = ("generator", "layout", "device", "pin_memory", "memory_format", "requires_grad")
 
@@ -118,25 +119,21 @@ def _pyfunc(fn):
 
 
 def _params(fn):
-    """op_signature (onnxscript/ir/_schemas.py) joined with the python signature"""
+    """-> (params as the function's op_signature (onnxscript/ir/_schemas.py) lists them,
+           pyparams as inspect.signature lists them); the two are compared by the spec (SignatureAgrees)"""
     import onnx_ir as ir
 
-    sig = fn.op_signature
-    py = inspect.signature(_pyfunc(fn)).parameters
     out = []
-    for p in sig.params:
-        q = py[p.name]
+    for p in fn.op_signature.params:
         if isinstance(p, ir.schemas.AttributeParameter):
             out.append({"name": p.name, "input": False, "atype": p.type.name, "required": bool(p.required),
                         "hasdef": p.default is not None, "variadic": False})
         else:
             out.append({"name": p.name, "input": True, "atype": "", "required": bool(p.required),
                         "hasdef": bool(p.has_default()), "variadic": bool(p.variadic)})
-        out[-1]["pykind"] = _PYKIND[q.kind]
-        out[-1]["pydef"] = q.default is not inspect.Parameter.empty
-    if [p["name"] for p in out] != list(py):
-        raise core.MachineryError(f"op_signature of {fn} does not list the python parameters in order")
-    return out
+    py = [{"name": q.name, "pykind": _PYKIND[q.kind], "pydef": q.default is not inspect.Parameter.empty}
+          for q in inspect.signature(_pyfunc(fn)).parameters.values()]
+    return out, py
 
 
 class RegistryUnavailable(Exception):
@@ -155,20 +152,25 @@ def registry_dump():
         except Exception as ex:  # the code under test cannot even produce its registry
             raise RegistryUnavailable(f"{type(ex).__name__}: {ex}") from ex
     pairs = collections.Counter((m.qualified_name, bool(m.is_complex)) for m in metas)
-    entries, live = [], []
+    entries, live, broken = [], [], []
     for m in metas:
         kind, target = _resolve(m.qualified_name)
         traced = not isinstance(m.function, onnxscript.OnnxFunction)
+        try:
+            params, pyparams = _params(m.function)
+        except Exception as ex:  # the function cannot say what its parameters are: reported, entry not modelled
+            broken.append((m.qualified_name, getattr(m, "name", "?"), f"{type(ex).__name__}: {str(ex)[:200]}"))
+            continue
         e = {"qname": m.qualified_name, "fname": m.name, "traced": traced, "complex": bool(m.is_complex),
              "resolved": kind, "multiplicity": pairs[(m.qualified_name, bool(m.is_complex))],
-             "args": [], "params": _params(m.function), "schema": ""}
+             "args": [], "params": params, "pyparams": pyparams, "schema": ""}
         if kind in ("op", "py"):
             e["args"], e["schema"] = _schema_args(kind, target)
         else:
             e["schema"] = target
         entries.append(e)
         live.append(m)
-    return entries, live
+    return entries, live, broken
 
 
 # ------------------------------------------------------------------ design / seeded registries
@@ -207,7 +209,14 @@ def canonical_registry(entries):
                            "variadic": False, "pykind": "vk", "pydef": False})
             out.append({"qname": e["qname"], "fname": "canonical", "traced": traced, "complex": traced, "resolved": e["resolved"],
                         "multiplicity": 1, "args": e["args"], "params": ps, "schema": e["schema"]})
-    return out
+    return [_with_pyparams(e) for e in out]
+
+
+def _with_pyparams(e):
+    """design / seeded entries describe one parameter list: the python signature is that list"""
+    if "pyparams" not in e:
+        e["pyparams"] = [{"name": p["name"], "pykind": p["pykind"], "pydef": p["pydef"]} for p in e["params"]]
+    return e
 
 
 def seeded_registry(canon):
@@ -215,7 +224,9 @@ def seeded_registry(canon):
     def pick(pred):
         for e in canon:
             if pred(e):
-                return copy.deepcopy(e)
+                e = copy.deepcopy(e)
+                e.pop("pyparams", None)      # rebuilt from the (edited) parameter list at the end
+                return e
         raise core.MachineryError("seeded registry: no canonical entry with the needed feature")
 
     def arg(e, name):
@@ -288,7 +299,14 @@ def seeded_registry(canon):
                                       "variadic": False, "pykind": "vp", "pydef": False}]                         # P_CollectVarPositional
     e = clean(lambda e: not e["traced"] and any(p["pykind"] == "pk" and p["hasdef"] and not p["input"] for p in e["params"]))
     next(p for p in e["params"] if p["pykind"] == "pk" and p["hasdef"] and not p["input"]).update(hasdef=False)   # S_DropNone
-    return out, tags
+    # op_signature lists the inputs ahead of the attributes, the python signature does not
+    e = pick(lambda e: not e["traced"] and (e["qname"], e["complex"]) not in used and len(e["params"]) >= 3
+             and e["params"][0]["input"] and not e["params"][1]["input"] and e["params"][2]["input"]
+             and all(p["pykind"] == "pk" for p in e["params"][:3]))
+    _with_pyparams(e)
+    e["params"] = sorted(e["params"], key=lambda p: not p["input"])
+    out.append(e); tags.add("signature_order")
+    return [_with_pyparams(e) for e in out], tags
 
 
 # ------------------------------------------------------------------ direction B: the real binding of one call
@@ -458,6 +476,8 @@ def _what(e, f):
         "rejected_droppable": f"droppable argument '{a}' is not dropped but refused (TypeError: the {kind} function has no such parameter)",
         "multiple": f"keyword argument '{a}' names a parameter already bound by position (TypeError)",
         "raised_other": f"binding raised {a}",
+        "signature_order": f"op_signature does not list the parameters of the python function in order (first difference at '{p}'): "
+                           "the exporter binds positional arguments against op_signature",
         "ill_formed_name": "the registered name is not <namespace>::<name>[.<overload>]",
         "default_suffix": "default overload spelled with '.default'",
         "not_unique": "more than one function for this (name, real/complex) pair",
@@ -468,7 +488,7 @@ def _what(e, f):
 
 # ------------------------------------------------------------------ part 1: binding
 def _tlc_binding(cfg, reg_file, obs_file, **kw):
-    return core.run_tlc("AtenBinding", cfg, env={"REG_FILE": reg_file, "OBS_FILE": obs_file}, timeout=1500, **kw)
+    return core.run_tlc("AtenBinding", cfg, env={"REG_FILE": reg_file, "OBS_FILE": obs_file}, timeout=1500, workers=WORKERS, **kw)
 
 
 def _terminal_cases(dump, what):
@@ -491,13 +511,19 @@ _LIVE = None
 
 def _replay_chunk(keys):
     entries, live = _LIVE
-    return [real_binding(live[eid - 1].function, entries[eid - 1], npos, kws) for eid, npos, kws in keys]
+    out = []
+    for eid, npos, kws in keys:
+        try:
+            out.append(real_binding(live[eid - 1].function, entries[eid - 1], npos, kws))
+        except Exception as ex:  # whatever the object under test does is an outcome
+            out.append({"binds": {}, "extra": [], "err": ["other", f"{type(ex).__name__}"]})
+    return out
 
 
 def part_binding(ctx: core.Ctx):
     global _LIVE
     try:
-        entries, live = registry_dump()
+        entries, live, broken = registry_dump()
     except RegistryUnavailable as ex:
         ctx.report({"kind": "registry", "error": str(ex)}, f"get_torchlib_ops() raises instead of returning the registry: {str(ex)[:400]}")
         return 0, [], []
@@ -505,8 +531,13 @@ def part_binding(ctx: core.Ctx):
     reg_file = core.write_tlc_json(os.path.join(d, "c16_reg.json"), entries)
     empty = core.write_tlc_json(os.path.join(d, "c16_noobs.json"), [])
     ctx.set("registry_entries", len(entries))
-    odd = [(e["qname"], p["name"], p["required"]) for e in entries for p in e["params"]
-           if p["pykind"] in ("po", "pk", "ko") and p["required"] == p["pydef"]]
+    for q, fname, why in broken:
+        ctx.report({"kind": "signature", "qname": q, "fname": fname, "error": why},
+                   f"{q} -> {fname}: the function's op_signature / python signature cannot be read: {why}")
+    if not entries:
+        return 0, [], []
+    odd = [(e["qname"], p["name"], p["required"]) for e in entries for p in e["params"] for q in e["pyparams"]
+           if q["name"] == p["name"] and q["pykind"] in ("po", "pk", "ko") and p["required"] == q["pydef"]]
     ctx.set("signature_python_disagreements", len(odd))   # op_signature.required vs python default; judged where a call shape exposes it
     for q, n, req in odd[:3]:
         print(f"NOTE C16 {q}: op_signature has required={req} for parameter '{n}' although python has {'a' if req else 'no'} default for it", flush=True)
@@ -562,9 +593,9 @@ def part_binding(ctx: core.Ctx):
     # by TLC with the same clauses (SpecObserved), the model's outcome is only compared
     keys = sorted(cases)
     _LIVE = (entries, live)
-    n = max(1, len(keys) // (core.NCPU * 2))
+    n = max(1, len(keys) // (WORKERS * 2))
     chunks = [keys[k : k + n] for k in range(0, len(keys), n)]
-    reals = [r for chunk in core.pmap(_replay_chunk, chunks, chunksize=1) for r in chunk]
+    reals = [r for chunk in core.pmap(_replay_chunk, chunks, chunksize=1, workers=WORKERS) for r in chunk]
     obs = [{"eid": eid, "npos": npos, "kws": list(kws), "extra": real["extra"],
             "binds": [{"param": p, "src": v[0], "via": v[1]} for p, v in real["binds"].items()],
             "err": {"kind": real["err"][0], "name": real["err"][1]}} for (eid, npos, kws), real in zip(keys, reals)]
@@ -635,7 +666,8 @@ def _fresh_registry_run(calls):
     saved = registration.default_registry
     fresh = registration.Registry()
     registration.default_registry = fresh
-    results, made, nwarn = [], {}, 0
+    results, made, nwarn, keep = [], {}, 0, []
+    ops_error = None
     try:
         for k, (names, private, cplx) in enumerate(calls):
             name_arg = names[0] if len(names) == 1 else tuple(names)
@@ -646,30 +678,38 @@ def _fresh_registry_run(calls):
             with warnings.catch_warnings(record=True) as w:
                 warnings.simplefilter("always")
                 try:
-                    made[id(registration.torch_op(name_arg, trace_only=True, private=private, complex=cplx)(f))] = k + 1
+                    keep.append(registration.torch_op(name_arg, trace_only=True, private=private, complex=cplx)(f))
+                    made[id(keep[-1])] = k + 1
                     results.append("ok")
-                except (ValueError, TypeError) as ex:
+                except Exception as ex:  # ValueError / TypeError are the modelled refusals; anything else is compared as well
                     results.append(type(ex).__name__)
                 nwarn += sum(1 for x in w if "already registered" in str(x.message))
         with warnings.catch_warnings():
             warnings.simplefilter("ignore")
-            ops = [(m.qualified_name, made.get(id(m.function), 0), bool(m.is_complex)) for m in api.get_torchlib_ops()]
+            try:
+                ops = [(m.qualified_name, made.get(id(m.function), 0), bool(m.is_complex)) for m in api.get_torchlib_ops()]
+            except Exception as ex:  # the code under test fails on this registry state: an outcome, reported by the caller
+                ops, ops_error = [], f"{type(ex).__name__}: {str(ex)[:200]}"
         contents = list(fresh)
     finally:
         registration.default_registry = saved
-    return results, ops, nwarn, contents
+    return results, ops, nwarn, contents, ops_error
 
 
 def _probe_chunk(names):
     out = []
     for n in names:
-        results, _ops, _w, contents = _fresh_registry_run([((n,), False, False)])
+        results, _ops, _w, contents, _err = _fresh_registry_run([((n,), False, False)])
         out.append(results[0] == "ok" and n in contents)
     return out
 
 
 def _hist_chunk(hists):
-    return [_fresh_registry_run(h)[:3] for h in hists]
+    out = []
+    for h in hists:
+        r = _fresh_registry_run(h)
+        out.append((r[0], r[1], r[2], r[4]))
+    return out
 
 
 def part_registry(ctx: core.Ctx):
@@ -682,7 +722,7 @@ def part_registry(ctx: core.Ctx):
     probes_done = False
     seen_bad = set()
     for cfg in cfgs:
-        res = core.run_tlc("TorchRegistry", cfg, dump=True, timeout=1500)
+        res = core.run_tlc("TorchRegistry", cfg, dump=True, timeout=1500, workers=WORKERS)
         ctx.tlc(res, cfg)
         if not res.ok:
             raise core.MachineryError(f"design-level registry model violates {res.violated}\n{res.out[-1500:]}")
@@ -697,8 +737,8 @@ def part_registry(ctx: core.Ctx):
             if not any(s["probeOK"] and not s["probeCode"] for s in probes) or not any(s["probeCode"] for s in probes):
                 raise core.MachineryError("vacuity: name universe has no accepted name / no '.x.default' gap")
             names = [s["probe"] for s in probes]
-            n = max(1, len(names) // (core.NCPU * 2))
-            got = [g for ch in core.pmap(_probe_chunk, [names[k : k + n] for k in range(0, len(names), n)], chunksize=1) for g in ch]
+            n = max(1, len(names) // (WORKERS * 2))
+            got = [g for ch in core.pmap(_probe_chunk, [names[k : k + n] for k in range(0, len(names), n)], chunksize=1, workers=WORKERS) for g in ch]
             for s, accepted in zip(probes, got):
                 ctx.add("evaluations")
                 case = {"kind": "name", "name": s["probe"], "model_accepts": s["probeCode"], "name_ok": s["probeOK"], "impl_accepts": accepted}
@@ -713,10 +753,10 @@ def part_registry(ctx: core.Ctx):
         if ctx.quick and len(full) > 3000:
             full = rng.sample(full, 3000)
         hists = [[(list(c["names"]), c["private"], c["complex"]) for c in s["hist"]] for s in full]
-        n = max(1, len(hists) // (core.NCPU * 2))
-        outs = [o for ch in core.pmap(_hist_chunk, [hists[k : k + n] for k in range(0, len(hists), n)], chunksize=1) for o in ch]
+        n = max(1, len(hists) // (WORKERS * 2))
+        outs = [o for ch in core.pmap(_hist_chunk, [hists[k : k + n] for k in range(0, len(hists), n)], chunksize=1, workers=WORKERS) for o in ch]
         shown = 0
-        for s, h, (results, ops, nwarn) in zip(full, hists, outs):
+        for s, h, (results, ops, nwarn, ops_error) in zip(full, hists, outs):
             ctx.add("evaluations")
             ctx.add("traces_validated_against_impl")
             nh += 1
@@ -727,7 +767,25 @@ def part_registry(ctx: core.Ctx):
             pairs = collections.Counter((q, c) for q, _f, c in ops)
             dup = [k for k, v in pairs.items() if v > 1]
             bad = [q for q, _f, _c in ops if not _name_ok_by_model(q, probes)]
-            if dup or bad:   # one report per distinct offending pair / name (the shortest history is enumerated first)
+            # a pair must resolve to a function that was registered FOR THAT PAIR (which of several is the model's business)
+            stray = [(q, c) for q, f, c in ops
+                     if not (1 <= f <= len(h) and results[f - 1] == "ok" and not h[f - 1][1] and h[f - 1][2] == c and q in h[f - 1][0])]
+            if ops_error is not None:
+                key = ("raises", ops_error.split(":")[0])
+                if key not in seen_bad:
+                    seen_bad.add(key)
+                    ctx.report(dict(case, error=ops_error), f"get_torchlib_ops() raises {ops_error} after the registration history {h}")
+                else:
+                    ctx.add("registry_violations_not_listed")
+            elif stray and not (dup or bad):
+                key = ("stray",) + stray[0]
+                if key not in seen_bad:
+                    seen_bad.add(key)
+                    ctx.report(case, f"get_torchlib_ops() resolves {stray[0]} to a function that was never registered for that (name, complex) pair "
+                                     f"after the registration history {h}")
+                else:
+                    ctx.add("registry_violations_not_listed")
+            elif dup or bad:   # one report per distinct offending pair / name (the shortest history is enumerated first)
                 key = ("dup",) + tuple(dup[0]) if dup else ("bad", bad[0])
                 if key not in seen_bad:
                     seen_bad.add(key)
@@ -847,7 +905,7 @@ def replay(ctx, path):
         case = json.load(f)["case"]
     print(json.dumps(case, indent=1, default=str))
     if case.get("kind") == "binding":
-        entries, live = registry_dump()
+        entries, live, _ = registry_dump()
         for e, m in zip(entries, live):
             if e["qname"] == case["entry"]["qname"] and e["complex"] == case["entry"]["complex"] and e["fname"] == case["entry"]["fname"]:
                 real = real_binding(m.function, e, case["npos"], case["kws"])
@@ -857,8 +915,8 @@ def replay(ctx, path):
         print("entry no longer registered")
         return 1
     if case.get("kind") == "history":
-        results, ops, nwarn, _ = _fresh_registry_run([(c[0], c[1], c[2]) for c in case["calls"]])
-        print("impl now :", json.dumps({"results": results, "ops": ops, "warnings": nwarn}))
+        results, ops, nwarn, _, err = _fresh_registry_run([(c[0], c[1], c[2]) for c in case["calls"]])
+        print("impl now :", json.dumps({"results": results, "ops": ops, "warnings": nwarn, "error": err}))
     if case.get("kind") == "name":
         print("impl now accepts:", _probe_chunk([case["name"]])[0])
     return 0
